@@ -76,7 +76,7 @@ def c11_dir(job, drv):
             tested += 1
             out = h.mask(drv.s2b(r["out"]))
             cls = "ok"
-            if r["exc"] or not out:
+            if r["exc"] or (not out and out != refs[key]) or (not out and any("EXCEPTION" in x for x in r["log"])):
                 cls = "empty"
             elif out != refs[key]:
                 cls = "wrong"
@@ -107,7 +107,7 @@ def c11_dir(job, drv):
                 key2 = seq[(n + 7) % len(seq)]
                 rq = protokeys[key2]
                 o2 = h.observed_request(drv, w.config, cachepath, drv.s2b(rq["data"]), rq["tls"])
-                cls2 = "empty" if (o2["exc"] or not o2["len"]) else ("ok" if o2["hash"] == h.digest(refs[key2]) else "wrong")
+                cls2 = "empty" if o2["crashed"] else ("ok" if o2["hash"] == h.digest(refs[key2]) else "wrong")
                 followups.append([n, cls, cls2, bool(o2["opened_w"])])
                 if cls2 != "ok":
                     followup_bad.append(n)
